@@ -332,6 +332,11 @@ func runOne(seed uint64, n int, out *bufio.Writer) error {
 		w2.Stop()
 		return fmt.Errorf("ImportWallet accepted a wrong passphrase")
 	}
+	if _, err := w2.WM.ImportWallet(js, pass+"\x00"); err == nil {
+		w2.Stop()
+		fmt.Fprintf(out, "I\t%d\timport-keystore\t-\t-\t-\timport-accepted-the-passphrase-followed-by-a-zero-byte\t-\n", n)
+		return nil
+	}
 	sum, err := w2.WM.ImportWallet(js, pass)
 	if err != nil {
 		w2.Stop()
